@@ -73,6 +73,13 @@ class PythonToIrCompiler:
             for name, signature in imports.items():
                 self.gen_import(name, signature)
 
+        # Declare all functions first, so that a function can call one that
+        # is defined further down (mutual recursion):
+        self.declared_functions = {}
+        for df in x.body:
+            if isinstance(df, ast.FunctionDef):
+                self.declare_function(df)
+
         for df in x.body:
             self.logger.debug("Processing %s", df)
             if isinstance(df, ast.FunctionDef):
@@ -109,10 +116,8 @@ class PythonToIrCompiler:
         self.builder.module.add_external(ir_function)
         self.function_map[name] = ir_function, return_type, arg_types
 
-    def gen_function(self, df):
-        """Transform a python function into an IR-function"""
-        self.local_map = {}
-
+    def declare_function(self, df):
+        """Create the IR-function and register its signature"""
         function_name = df.name
         binding = ir.Binding.GLOBAL
         dbg_int = debuginfo.DebugBaseType("int", 8, 1)
@@ -140,6 +145,13 @@ class PythonToIrCompiler:
 
         # Register function as known:
         self.function_map[function_name] = ir_function, return_type, arg_types
+        self.declared_functions[df] = ir_function, return_type, dbg_args
+
+    def gen_function(self, df):
+        """Transform a python function into an IR-function"""
+        self.local_map = {}
+        ir_function, return_type, dbg_args = self.declared_functions[df]
+        dbg_int = debuginfo.DebugBaseType("int", 8, 1)
 
         self.logger.debug("Created function %s", ir_function)
         self.builder.block_number = 0
@@ -561,6 +573,8 @@ class PythonToIrCompiler:
         name = expr.func.id
 
         # Lookup function and check types:
+        if name not in self.function_map:
+            self.error(expr, f"Unknown function {name}")
         ir_function, return_type, arg_types = self.function_map[name]
         self.logger.warning("Function arguments not type checked!")
 
